@@ -21,6 +21,8 @@ EXPLANATION = (
 DECLINED = ["'they do return once the target terminates' under arbitrary user schedulers (progress)"]
 ASSUMPTIONS = ["X1 memory orders of the atomic wrappers", "C02.R3: the joiner's BLOCKED state is published after its context is saved"]
 RULES_DOC = dict(common.SHARED_DOC)
+RULES_DOC["R8"] = "= C01.R5: a unit cancelled in a yield-family callback is not pushed back to its pool (a joiner is released once and the terminated unit never runs again)"
+RULES_DOC["R9"] = "= C18.R6: a failed step leaves the descriptor it was given unchanged (a revive that fails does not leave a TERMINATED unit marked READY, on which a join or free would never return)"
 RULES_DOC.update({
     "R1": "every return of thread_join (and of its waiting helpers) follows an acquire-load observation state == TERMINATED",
     "R2": "joiner: fetch_or(REQ_JOIN) before suspending, suspend only if none was pending; BLOCKED before the p_link release-store; futex dummy prepared before p_link is published",
@@ -596,3 +598,7 @@ def run(P, rep, tier):
     rule_R5(P, rep)
     rule_R6(P, rep)
     rule_R7(P, rep)
+    from . import C01        # lazy: C01 imports this module
+    common.borrow(rep, P, C01.rule_R5, "R8")
+    from . import c18_commit
+    common.borrow(rep, P, c18_commit.rule_R6, "R9")
